@@ -98,6 +98,16 @@ EXPLANATION = ("DEDUCTIVE.  In the engine a set -> list conversion, the iteratio
                "entry points - the property quantifies over interpreter states, which the VC generator does not model: tools/c14_worker.py computes every named output in fresh "
                "interpreters; oracles/determinism_o.py compares their sha256 across seeds and across two in-process calls")
 
+# glue functions of the property's observe_at list (contracts/glue_c.py; texts shared in props/_glue_text.py)
+from props import _glue_text as _GT
+DEDUCTIVE += [{"module": "rnapolis.annotator", "sidecar": "contracts.glue_c",
+               "targets": ["extract_base_interactions", "extract_secondary_structure", "write_bpseq", "write_json", "add_common_output_arguments",
+                           "handle_output_arguments@prefix", "main@annotator"]}]
+TRUSTED = list(TRUSTED) + _GT.TRUSTED
+ASSUMPTIONS = list(ASSUMPTIONS) + _GT.ASSUMPTIONS
+EXPLANATION = EXPLANATION + _GT.C14
+
+
 MAX_PER_KIND = 2
 
 
